@@ -49,6 +49,8 @@ func runC02(e *Env) {
 			})
 		}
 	}
+	ruleGroupValue(e, "C02.value", romanDigits)
+	e.S.Floor("C02.value", 40)
 	ruleDeleg(e, "C02.deleg", "roman")
 	e.S.Floor("C02.tab", 36)
 	e.S.Floor("C02.decomp", 6)
@@ -73,9 +75,13 @@ var romanPositions = []romanPos{
 }
 
 // ruleC02Long extracts toHundreds/toTens/toUnits as decision tables; returns the literals each position can emit.
+// romanDigits: capture → emitted literal → decimal digit (filled by ruleC02Long).
+var romanDigits map[int]map[string]int
+
 func ruleC02Long(e *Env) map[int][]string {
 	const rule = "C02.tab"
 	lits := map[int][]string{}
+	romanDigits = map[int]map[string]int{2: {}, 3: {}, 4: {}}
 	for _, p := range romanPositions {
 		fn := e.Fn(rule, "roman", p.fn)
 		if fn == nil {
@@ -167,13 +173,19 @@ func ruleC02Long(e *Env) map[int][]string {
 			}
 			if c, ok := lf.Out.Ret.(pred.Const); ok && c.V != nil && c.V.Kind() == constant.String {
 				lits[p.capture] = append(lits[p.capture], constant.StringVal(c.V))
+				if is4 {
+					romanDigits[p.capture][constant.StringVal(c.V)] = 4
+				} else if is9 {
+					romanDigits[p.capture][constant.StringVal(c.V)] = 9
+				}
 			}
 		}
 		if t := e.table("C02.alpha", "roman", p.table); t != nil {
 			if vals, err := t.SliceValues(); err == nil {
-				for _, v := range vals {
+				for d, v := range vals {
 					if v != nil && v.Kind() == constant.String {
 						lits[p.capture] = append(lits[p.capture], constant.StringVal(v))
+						romanDigits[p.capture][constant.StringVal(v)] = d
 					}
 				}
 			}
